@@ -55,7 +55,96 @@ func c18AccountDeclared(name string, declared map[string]bool) bool {
 	return false
 }
 
+// c18History: declarations reached through ONE document's includes must not leak into the analysis
+// of other documents, nor outlive the include directive that brought them in.
+func c18History(c *Ctx, idx int64) {
+	r := c.RNG(idx, 9)
+	dir := filepath.Join(c.Dir, fmt.Sprintf("h%d", idx))
+	os.MkdirAll(dir, 0o755)
+	defer os.RemoveAll(dir)
+	acct := Pick(r, []string{"bank", "broker", "wallet2", "Konto"})
+	cm := Pick(r, []string{"EUR", "BTC", "hours", "₽"})
+	rootTx := "2019-01-01 opening\n    assets:cash  5 USD\n    equity:opening\n"
+	os.WriteFile(filepath.Join(dir, "main.journal"), []byte("account assets:cash\ncommodity USD\n\n"+rootTx), 0o644)
+	os.WriteFile(filepath.Join(dir, "b.journal"), []byte("account "+acct+"\ncommodity "+cm+"\n"), 0o644)
+	body := fmt.Sprintf("2019-02-02 side\n    %s:checking  5 %s\n    assets:cash  -5 %s\n", acct, cm, cm)
+	withInc := "include b.journal\n\n" + body
+	os.WriteFile(filepath.Join(dir, "side.journal"), []byte(withInc), 0o644)
+	os.WriteFile(filepath.Join(dir, "other.journal"), []byte(body), 0o644)
+	s := NewSession(dir, SessOpt{Root: true})
+	s.Drain()
+	c.Count("history_cases", 1)
+	c.Nontrivial(HashStr(fmt.Sprint("c18h", acct, cm, idx%7)))
+	warnings := func(pub *protocol.PublishDiagnosticsParams) []string {
+		var out []string
+		if pub != nil {
+			for _, d := range pub.Diagnostics {
+				if k := CodeOf(d); k == "UNDECLARED_ACCOUNT" || k == "UNDECLARED_COMMODITY" {
+					out = append(out, k+"|"+d.Message)
+				}
+			}
+		}
+		sort.Strings(out)
+		return out
+	}
+	both := []string{"UNDECLARED_ACCOUNT|account '" + acct + ":checking' is not declared", "UNDECLARED_COMMODITY|commodity '" + cm + "' has no directive"}
+	sort.Strings(both)
+	var trace []string
+	step := func(what string, pub *protocol.PublishDiagnosticsParams, ok bool, want []string) bool {
+		trace = append(trace, what)
+		if !ok {
+			c.Inconclusive("no publish in the declaration history")
+			return false
+		}
+		if got := warnings(pub); fmt.Sprint(got) != fmt.Sprint(want) {
+			kind := "missing-warning(history)"
+			if len(got) > len(want) {
+				kind = "spurious-warning(history)"
+			}
+			c.Violate(Violation{Kind: kind, Sig: "C18:" + kind + "|root|decl=other-document", Pool: "clean",
+				Detail:  fmt.Sprintf("after %v: undeclared warnings %v, expected %v (b.journal declares %q and %q and is included by side.journal only)", trace, got, want, acct, cm),
+				Witness: map[string]any{"steps": trace, "files": map[string]string{"main.journal": "account assets:cash / commodity USD / a transaction", "b.journal": "account " + acct + " / commodity " + cm, "side.journal": withInc, "other.journal": body}}})
+			return false
+		}
+		return true
+	}
+	side, other := s.URI("side.journal"), s.URI("other.journal")
+	order := r.Intn(3)
+	if order == 0 {
+		pub, ok := s.OpenWait(other, body)
+		if !step("open other.journal (no include)", pub, ok, both) {
+			return
+		}
+	}
+	pub, ok := s.OpenWait(side, withInc)
+	if !step("open side.journal (includes b.journal)", pub, ok, nil) {
+		return
+	}
+	if order != 0 {
+		pub, ok = s.OpenWait(other, body)
+		if !step("open other.journal (no include)", pub, ok, both) {
+			return
+		}
+	}
+	if order == 2 {
+		have := s.Stub.PubCount(other)
+		s.ChangeFull(other, body+"\n")
+		pub, ok = s.WaitPub(other, have)
+		if !step("change other.journal", pub, ok, both) {
+			return
+		}
+	}
+	have := s.Stub.PubCount(side)
+	s.ChangeFull(side, body)
+	pub, ok = s.WaitPub(side, have)
+	step("change side.journal: include directive removed", pub, ok, both)
+}
+
 func runC18(c *Ctx, idx int64) {
+	if idx%10 == 9 {
+		c18History(c, idx)
+		return
+	}
 	st := c.State.(*c18State)
 	r := c.RNG(idx, 0)
 	nf := Pick(r, []int{1, 2, 2, 3})
